@@ -350,7 +350,7 @@ class Enumerator:
                     yield from self.branch(nxt, s, line)
             return
         # primitive: substitute locals (and tracked attributes)
-        prim = subst(test, st.env, st.attrs if self.track_attrs else None)
+        prim = subst(test, st.env)
         if isinstance(prim, (ast.BoolOp,)) or (
                 isinstance(prim, ast.UnaryOp)
                 and isinstance(prim.op, ast.Not)):
@@ -380,11 +380,17 @@ class Enumerator:
 
     def _branch_prim(self, prim, st, line):
         prim, flip = self._norm_test(prim)
-        f = self._fold(prim)
+        # tracked attribute values are used for folding and for keying the
+        # fact, the recorded condition keeps the attribute spelling
+        full = subst(prim, {}, st.attrs) if (self.track_attrs
+                                              and st.attrs) else prim
+        if isinstance(full, (ast.BoolOp, ast.UnaryOp)):
+            full = prim
+        f = self._fold(full)
         if f is not None:
             yield st, (f != flip)
             return
-        k = key_of(prim)
+        k = key_of(full)
         if k in st.facts:
             yield st, (st.facts[k] != flip)
             return
@@ -466,6 +472,11 @@ class Enumerator:
         """
         v = subst(value, st.env)
         if not has_call(v):
+            if isinstance(v, (ast.List, ast.Dict, ast.Set)):
+                # a mutable literal may be mutated later through its name:
+                # name it by a symbol instead of inlining the literal
+                yield st, self.fresh(v, 'm'), None
+                return
             yield st, v, None
             return
         if isinstance(v, ast.Call) and self.inline is not None and \
@@ -772,13 +783,22 @@ class Enumerator:
                 self._ev(s0, 'call', c, line)
                 self._invalidate_call(s0, c)
         self._ev(s0, 'iter', it, line)
-        if 0 in self.loop_iters:
+        # a known truthiness of the iterable decides emptiness
+        itk = key_of(subst(it, {}, s0.attrs) if (self.track_attrs
+                                                  and s0.attrs) else it)
+        known = s0.facts.get(itk)
+        ct = const_truth(it)
+        if ct is not None:
+            known = ct
+        if 0 in self.loop_iters and known is not True:
             sz = s0.fork()
             sz.conds.append(Cond(it, False, line, 'loop', self.frame))
+            sz.facts[itk] = False
             yield from self.block(node.orelse, sz, handlers)
-        if 1 in self.loop_iters:
+        if 1 in self.loop_iters and known is not False:
             s1 = s0.fork()
             s1.conds.append(Cond(it, True, line, 'loop', self.frame))
+            s1.facts[itk] = True
             elem = self.fresh(('elem', it), 'e')
             self._assign_target(node.target, elem, s1, line)
             for s, status in self.block(node.body, s1, handlers):
